@@ -332,7 +332,7 @@ def rule_RE(run: Run) -> RuleResult:
     ok = True
     for p in eps:
         scalar = [e for e in p.events if e.kind == "store" and len(e.args) == 2 and e.args[0].key() in SELF_KEYS and e.target is not None and T_KEY in e.target.key()]
-        pushes = [e for e in p.events if e.kind == "call" and e.text in ("append", "appendleft") and e.args and T_KEY in e.args[0].key()]
+        pushes = [e for e in p.events if e.kind == "call" and e.text in ("append", "appendleft", "insert") and e.args and T_KEY in e.args[-1].key()]
         if scalar:
             ok, d = False, f"__enter__ overwrites {scalar[0].text} with the runtime to restore (line {scalar[0].line})"
         elif not pushes:
@@ -344,14 +344,24 @@ def rule_RE(run: Run) -> RuleResult:
     xps = [p for p in _fn_paths(run, ex, rt) if p.status == "ret"]
     ok2 = bool(xps)
     d2 = "pops the per-entry stack"
+    def _takes(p):
+        """Removals of one element from a per-entry stack: stack.pop(…)/popleft(), or ``del stack[i]`` (paired with the read of stack[i])."""
+        out = [(e, e.target.key(), None) for e in p.events if e.kind == "call" and e.text in ("pop", "popleft") and e.target is not None and e.target.key() != T_KEY]
+        for e in p.events:
+            if e.kind == "delete" and len(e.args) == 2 and isinstance(e.args[1], Const) and isinstance(e.args[1].v, int) and not isinstance(e.args[1].v, bool) \
+                    and e.args[0].key() != T_KEY and OWN_THREAD in e.args[0].key():
+                out.append((e, e.args[0].key(), e.args[1].v))
+        return out
     for p in xps:
-        pops = [e for e in p.events if e.kind == "call" and e.text == "pop" and e.target is not None and e.target.key() != T_KEY]
+        pops = _takes(p)
         if not pops:
             ok2, d2 = False, "does not pop a per-entry stack"
-        elif not all(OWN_THREAD in e.target.key() or "local" in e.target.key() for e in pops):
+        elif not all(OWN_THREAD in sk or "local" in sk for e, sk, ix in pops):
             ok2, d2 = False, "the stack it pops is not the entering thread's"
+        taken = {f"getitem({sk},Const({ix}))" for e, sk, ix in pops if ix is not None}
         for e in p.events:
-            if e.kind == "store" and len(e.args) == 2 and e.args[0].key() == T_KEY and not (e.target is not None and e.target.key().startswith("call:pop(")):
+            if e.kind == "store" and len(e.args) == 2 and e.args[0].key() == T_KEY and not (e.target is not None and (e.target.key().startswith("call:pop(") or e.target.key().startswith("call:popleft(")
+                                                                                                                 or e.target.key() in taken)):
                 ok2, d2 = False, f"restores {e.target.key()[:60] if e.target is not None else None}, not the value popped from the per-entry stack"
     res.add("labrea.runtime.Runtime.__exit__:restores the runtime saved by the matching entry", ok2, f, ex.lineno, d2, nec)
     # entries nest: the entry left first is the one entered last, so the stack is taken from the end it was filled at
@@ -369,6 +379,7 @@ def rule_RE(run: Run) -> RuleResult:
         return "other"
     push_ends = {_end(e) for p in eps for e in p.events if e.kind == "call" and e.text in ("append", "appendleft", "insert") and e.args and T_KEY in e.args[-1].key()}
     pop_ends = {_end(e) for p in xps for e in p.events if e.kind == "call" and e.text in ("pop", "popleft") and e.target is not None and e.target.key() != T_KEY}
+    pop_ends |= {("right" if ix == -1 else "left" if ix == 0 else "other") for p in xps for e, sk, ix in _takes(p) if ix is not None}
     ok_l = len(push_ends) == 1 and push_ends == pop_ends and "other" not in push_ends
     res.add("labrea.runtime.Runtime.__exit__:takes the saved runtime from the end of the stack __enter__ filled", ok_l, f, ex.lineno,
             f"pushed at {sorted(push_ends)}, popped at {sorted(pop_ends)}" + ("" if ok_l else ": nested entries of one runtime object are left in the wrong order — the inner exit "
